@@ -220,13 +220,20 @@ def create_attribute(node: TokenAttribute, state: ConvertState):
     boolean = False
     implied = False
     if name:
-        if name[-1] == '.':
+        # NB: `.` and `!` marks are the ones written in abbreviation, not the ones
+        # that came with inserted text (`[$#=v]`)
+        if name[-1] == '.' and is_written(node.name[-1], -1, '.'):
             boolean = True
             name = name[0:-1]
-        if name and name[0] == '!':
+        if name and name[0] == '!' and is_written(node.name[0], 0, '!'):
             implied = True
             name = name[1:]
     return AbbreviationAttribute(name, None, value_type, boolean, implied, node.multiple)
+
+
+def is_written(token, pos: int, ch: str):
+    "Check if given token is a literal with `ch` character at `pos`"
+    return isinstance(token, tokens.Literal) and token.value[pos:pos + 1 or None] == ch
 
 def stringify_name(tokens: list, state: ConvertState):
     "Converts given token list to string"
